@@ -36,12 +36,23 @@ type c18World struct {
 	foreign   []base.SuffrageProof       // another network history with the same heights, other nodes/hashes
 	late      []base.SuffrageProof       // a foreign history whose suffrage height 0 lives at a non-genesis block
 	fork      map[int]base.SuffrageProof // fork[k] links from main[k-1] but is not main[k] (k>=1)
+	high      []base.SuffrageProof       // a foreign history that starts at genesis and whose suffrage changes rarely: suffrage height i>=1 at block c18HighBlock(i), above every block of main
+	forkhigh  map[int]base.SuffrageProof // forkhigh[k] links from main[k-1] (suffrage height k) but lives at a block above every block of main (k>=1)
 	cand      base.State                 // a candidates state
 }
 
 func c18Hash(s string) util.Hash { return valuehash.NewSHA256([]byte(s)) }
 
 func c18Block(i int) base.Height { return base.Height(int64(i)*3 + int64(i%3)) } // strictly increasing, 0 for i=0
+
+// c18HighBlock: block heights of the rarely-changing histories; for i>=1 above c18Block(c18ChainLen-1)
+func c18HighBlock(i int) base.Height {
+	if i < 1 {
+		return base.GenesisHeight
+	}
+
+	return c18Block(c18ChainLen-1) + base.Height(int64(i)*200)
+}
 
 func c18Node(tag string, i int) base.LocalNode {
 	priv, err := base.NewMPrivatekeyFromSeed(fmt.Sprintf("c18-%s-node-%03d-seed-long-enough-for-a-key", tag, i))
@@ -164,15 +175,22 @@ var (
 
 func c18GetWorld(t testing.TB) *c18World {
 	c18WorldOnce.Do(func() {
-		w := &c18World{networkID: base.NetworkID("c18-network"), fork: map[int]base.SuffrageProof{}}
+		w := &c18World{networkID: base.NetworkID("c18-network"), fork: map[int]base.SuffrageProof{}, forkhigh: map[int]base.SuffrageProof{}}
 		w.main = c18Chain("ma", w.networkID, c18ChainLen, c18Block)
 		w.foreign = c18Chain("fo", w.networkID, c18ChainLen, c18Block)
 		w.late = c18Chain("la", w.networkID, c18ChainLen, func(i int) base.Height { return c18Block(i) + 3 })
+		w.high = c18Chain("hi", w.networkID, c18ChainLen, c18HighBlock)
 
 		signer := c18Node("fk", 0)
 		for k := 1; k < c18ChainLen; k++ {
 			w.fork[k] = c18Proof("fk", w.networkID, signer, k, c18Block(k), w.main[k-1].State(),
 				[]base.LocalNode{signer, c18Node("fk", 1+k%3)})
+		}
+
+		hsigner := c18Node("fh", 0)
+		for k := 1; k < c18ChainLen; k++ {
+			w.forkhigh[k] = c18Proof("fh", w.networkID, hsigner, k, c18HighBlock(k), w.main[k-1].State(),
+				[]base.LocalNode{hsigner, c18Node("fh", 1+k%3)})
 		}
 
 		cv := isaac.NewSuffrageCandidatesStateValue([]base.SuffrageCandidateStateValue{
@@ -197,10 +215,21 @@ func c18GetWorld(t testing.TB) *c18World {
 	check("main", w.main)
 	check("foreign", w.foreign)
 	check("late", w.late)
+	check("high", w.high)
 
-	for k, p := range w.fork {
-		if err := p.IsValid(w.networkID); err != nil {
+	for k := 1; k < c18ChainLen; k++ {
+		if err := w.fork[k].IsValid(w.networkID); err != nil {
 			t.Fatalf("harness: fork[%d] invalid: %+v", k, err)
+		}
+
+		if err := w.forkhigh[k].IsValid(w.networkID); err != nil {
+			t.Fatalf("harness: forkhigh[%d] invalid: %+v", k, err)
+		}
+
+		// generator soundness: the "high" proofs sit above every block a local state can be at
+		if w.high[k].State().Height() <= w.main[c18ChainLen-1].State().Height() ||
+			w.forkhigh[k].State().Height() <= w.main[c18ChainLen-1].State().Height() {
+			t.Fatalf("harness: high/forkhigh[%d] is not above the main chain", k)
 		}
 	}
 
@@ -210,7 +239,7 @@ func c18GetWorld(t testing.TB) *c18World {
 // ---- case
 
 type c18Ans struct {
-	Kind string `json:"kind"` // main | foreign | late | fork | notfound | err | notupdated
+	Kind string `json:"kind"` // main | foreign | late | fork | high | forkhigh | notfound | err | notupdated
 	H    int    `json:"h"`    // suffrage height of the delivered proof
 }
 
@@ -276,6 +305,10 @@ func (w *c18World) proofOf(a c18Ans) base.SuffrageProof {
 		return w.late[a.H]
 	case "fork":
 		return w.fork[a.H]
+	case "high":
+		return w.high[a.H]
+	case "forkhigh":
+		return w.forkhigh[a.H]
 	}
 
 	return nil
@@ -297,7 +330,7 @@ func c18GenAns(t *rapid.T, c *c18Case, requested int, label string) c18Ans {
 		h = c18ChainLen - 1
 	}
 
-	switch k := rapid.IntRange(0, 11).Draw(t, label+"Kind"); {
+	switch k := rapid.IntRange(0, 14).Draw(t, label+"Kind"); {
 	case k <= 3:
 		return c18Ans{Kind: "main", H: h} // a proof of another (or the same) height of the honest chain
 	case k == 4:
@@ -316,6 +349,20 @@ func c18GenAns(t *rapid.T, c *c18Case, requested int, label string) c18Ans {
 		return c18Ans{Kind: "notfound"}
 	case k == 10:
 		return c18Ans{Kind: "err"}
+	case k == 12:
+		return c18Ans{Kind: "high", H: h} // foreign chain, block height above every local state
+	case k == 13:
+		if h >= 1 {
+			return c18Ans{Kind: "forkhigh", H: h} // links from the honest predecessor of h, block height above every local state
+		}
+
+		return c18Ans{Kind: "high", H: 0}
+	case k == 14:
+		if requested >= 1 && requested < c18ChainLen {
+			return c18Ans{Kind: "forkhigh", H: requested}
+		}
+
+		return c18Ans{Kind: "high", H: h}
 	default:
 		if h >= 1 {
 			return c18Ans{Kind: "fork", H: h}
@@ -323,6 +370,30 @@ func c18GenAns(t *rapid.T, c *c18Case, requested int, label string) c18Ans {
 
 		return c18Ans{Kind: "late", H: 0}
 	}
+}
+
+// c18GenOutOfRangeLast: the remote's LAST proof is a valid proof of another history (foreign chain, or a fork of the
+// local chain) that sits at a block above the local state while its suffrage height is below, at or just above the
+// local suffrage height ("heights below the local state" + "foreign chains" of the statement, for the last-proof answer).
+func c18GenOutOfRangeLast(t *rapid.T, c *c18Case) c18Ans {
+	hs := []int{c.Local, c.Local, c.Local - 1, c.Local - 1, c.Local - 2, c.Local / 2, 0, 1, c.Local + 1, c.Local - c.Limit, c.Local - c.Limit - 1}
+	hs = append(hs, rapid.IntRange(0, c.Local).Draw(t, "oorLastH"))
+	h := rapid.SampledFrom(hs).Draw(t, "oorLastHsel")
+
+	if h < 0 {
+		h = 0
+	}
+
+	if h >= c18ChainLen {
+		h = c18ChainLen - 1
+	}
+
+	kind := rapid.SampledFrom([]string{"high", "high", "forkhigh", "forkhigh", "late"}).Draw(t, "oorLastKind")
+	if kind == "forkhigh" && h < 1 {
+		kind = "high"
+	}
+
+	return c18Ans{Kind: kind, H: h}
 }
 
 func c18GenCase(t *rapid.T) c18Case {
@@ -343,8 +414,30 @@ func c18GenCase(t *rapid.T) c18Case {
 	c.Last = c18Ans{Kind: "main", H: c.N - 1}
 	c.Cand = rapid.SampledFrom([]string{"state", "state", "state", "none", "err"}).Draw(t, "cand")
 
-	switch rapid.IntRange(0, 10).Draw(t, "mode") {
+	switch rapid.IntRange(0, 12).Draw(t, "mode") {
 	case 0, 1: // honest remote
+	case 11, 12: // out-of-range last proof against a local state at suffrage height 0..; by-height answers honest or off
+		if c.Local < 0 {
+			c.Local = rapid.IntRange(0, c.N+2).Draw(t, "oorLocal")
+		}
+
+		c.Last = c18GenOutOfRangeLast(t, &c)
+
+		for i, k := 0, rapid.IntRange(0, 2).Draw(t, "oorNOff"); i < k; i++ {
+			lo := c.Local + 1
+			if lo > c.N-1 {
+				lo = c.N - 1
+			}
+
+			h := rapid.IntRange(lo, c.N-1).Draw(t, fmt.Sprintf("oorOffAt%d", i))
+			a := c18GenAns(t, &c, h, fmt.Sprintf("oorOff%d", i))
+
+			if a.Kind == "main" && a.H == h {
+				continue
+			}
+
+			c.ByHeight[h] = a
+		}
 	case 10: // from some height on the remote serves another, internally consistent history
 		lo := c.Local + 1
 		if lo > c.N-1 {
@@ -540,20 +633,28 @@ func c18Run(t ev.TB, r *ev.Rec, w *c18World, c c18Case) (classes []string, nontr
 
 	var proofs []base.SuffrageProof
 	var err error
+	var panicked bool
 
 	func() {
 		defer func() {
 			if x := recover(); x != nil {
-				if r.Failed() {
+				if ev.IsRapidUnwind(x) {
 					panic(x)
 				}
 
+				panicked = true
+
+				// "No response from a remote, however malformed or out-of-range, can make it panic"
 				r.Violation(t, "panic-in-caller", "Build panicked: %v; case %s", x, c.fingerprint())
 			}
 		}()
 
 		_, proofs, _, err = b.Build(context.Background(), local)
 	}()
+
+	if panicked { // only reached when the panic is a recorded known finding
+		return []string{"result:panic"}, true
+	}
 
 	// ---- classification
 	span := c.N - 1 - c.Local
@@ -567,6 +668,15 @@ func c18Run(t ev.TB, r *ev.Rec, w *c18World, c c18Case) (classes []string, nontr
 
 	if span > c.Limit {
 		classes = append(classes, "multi-batch")
+	}
+
+	if lastProof != nil && local != nil && lastProof.State().Height() > local.Height() {
+		switch lh := c18SufHeight(lastProof.State()); {
+		case lh < int64(c.Local):
+			classes = append(classes, "last:block-above-local-suffrage-below-local")
+		case lh == int64(c.Local):
+			classes = append(classes, "last:block-above-local-suffrage-equal-local")
+		}
 	}
 
 	kinds := map[string]bool{}
@@ -766,7 +876,9 @@ func TestC18(t *testing.T) {
 	r.Rule("remote = honest chain of 1..40 valid suffrage proofs (signed block maps, states trees); local state nil or at any height (also at/after the remote's end); " +
 		"batch limit 1..7; per requested height the remote answers honestly or with: another height of the same chain (below local, neighbour, above last, other), " +
 		"a foreign chain (same/other height), a foreign chain whose height 0 is not at genesis, a fork that links from the honest predecessor, not-found, error; " +
-		"last-proof answer honest / not-updated / error / inconsistent with the by-height answers. " +
+		"a foreign chain and a fork of the local chain whose blocks lie above every local block (suffrage changes rarely); " +
+		"last-proof answer honest / not-updated / error / inconsistent with the by-height answers / out of range: a valid proof at a block above the local state " +
+		"whose suffrage height is below, at or just above the local suffrage height (grid over local 0..n-1 plus drawn). " +
 		"non-trivial: any dishonest answer, or more heights to fetch than the batch limit; distinct by (n, local, limit, all answers)")
 	r.Floor(100)
 	r.Assume(
@@ -816,6 +928,51 @@ func TestC18(t *testing.T) {
 
 					classes, nt := c18Run(t, r, w, c)
 					r.Case(c.fingerprint(), nt, classes...)
+				}
+			}
+		}
+	})
+
+	if t.Failed() {
+		return
+	}
+
+	// ---- A2. out-of-range last proof, deterministic: local state at every suffrage height 0..n-1, the remote's last
+	// proof is a valid proof of a foreign chain / of a fork of the local chain at a block above the local state, with a
+	// suffrage height below, at and just above the local one; by-height answers honest
+	t.Run("out-of-range-last-grid", func(t *testing.T) {
+		i := 0
+
+		for _, n := range []int{2, 3, 7, 14} {
+			for _, limit := range []int{1, 3, 7} {
+				for local := 0; local < n; local++ {
+					seen := map[int]bool{}
+
+					for _, h := range []int{0, 1, local / 2, local - limit, local - 2, local - 1, local, local + 1} {
+						if h < 0 || seen[h] {
+							continue
+						}
+
+						seen[h] = true
+
+						for _, kind := range []string{"high", "forkhigh"} {
+							if kind == "forkhigh" && h < 1 {
+								continue
+							}
+
+							i++
+							if !r.Mine(i) {
+								continue
+							}
+
+							c := c18Case{N: n, Local: local, Limit: limit, Last: c18Ans{Kind: kind, H: h}, Cand: "state", ByHeight: map[int]c18Ans{}}
+							b, _ := json.Marshal(c)
+							r.Journal("C18CASE %s", b)
+
+							classes, nt := c18Run(t, r, w, c)
+							r.Case(c.fingerprint(), nt, classes...)
+						}
+					}
 				}
 			}
 		}
